@@ -172,17 +172,33 @@ pub fn sudoku_all(root: usize, givens: &[usize], limit: usize) -> Option<Vec<Vec
 
 /// up to `k` completions (stops searching once k are found)
 pub fn sudoku_some(root: usize, givens: &[usize], k: usize) -> Vec<Vec<usize>> {
-    // inconsistent givens have no completion (sudoku_all with limit 0 answers Some([]) exactly then)
-    if let Some(v) = sudoku_all(root, givens, 0) {
-        if v.is_empty() {
-            // either inconsistent givens or no solution at all
+    // inconsistent givens have no completion
+    let sq = root * root;
+    let grid: Vec<usize> = (0..sq * sq).map(|i| givens.get(i).copied().unwrap_or(0)).collect();
+    for i in 0..grid.len() {
+        let d = grid[i];
+        if d == 0 {
+            continue;
+        }
+        if d > sq {
             return vec![];
         }
+        let (r, c) = (i / sq, i % sq);
+        for j in 0..grid.len() {
+            if j != i && grid[j] == d {
+                let (r2, c2) = (j / sq, j % sq);
+                if r2 == r || c2 == c || (r2 / root == r / root && c2 / root == c / root) {
+                    return vec![];
+                }
+            }
+        }
     }
+    // bounded search (gives up silently on hard instances: the caller then has nothing to probe)
     sudoku_first_k(root, givens, k)
 }
 
 fn sudoku_first_k(root: usize, givens: &[usize], k: usize) -> Vec<Vec<usize>> {
+    let mut budget: u64 = 200_000;
     let sq = root * root;
     let cells = sq * sq;
     let mut grid: Vec<usize> = (0..cells).map(|i| givens.get(i).copied().unwrap_or(0)).collect();
@@ -205,10 +221,11 @@ fn sudoku_first_k(root: usize, givens: &[usize], k: usize) -> Vec<Vec<usize>> {
         }
         true
     }
-    fn go(grid: &mut Vec<usize>, root: usize, out: &mut Vec<Vec<usize>>, k: usize) {
-        if out.len() >= k {
+    fn go(grid: &mut Vec<usize>, root: usize, out: &mut Vec<Vec<usize>>, k: usize, budget: &mut u64) {
+        if out.len() >= k || *budget == 0 {
             return;
         }
+        *budget -= 1;
         let sq = root * root;
         let mut best: Option<(usize, Vec<usize>)> = None;
         for i in 0..grid.len() {
@@ -231,8 +248,8 @@ fn sudoku_first_k(root: usize, givens: &[usize], k: usize) -> Vec<Vec<usize>> {
             Some((i, cands)) => {
                 for d in cands {
                     grid[i] = d;
-                    go(grid, root, out, k);
-                    if out.len() >= k {
+                    go(grid, root, out, k, budget);
+                    if out.len() >= k || *budget == 0 {
                         break;
                     }
                 }
@@ -241,7 +258,7 @@ fn sudoku_first_k(root: usize, givens: &[usize], k: usize) -> Vec<Vec<usize>> {
         }
     }
     let mut out = Vec::new();
-    go(&mut grid, root, &mut out, k);
+    go(&mut grid, root, &mut out, k, &mut budget);
     out
 }
 
